@@ -245,7 +245,7 @@ def correspondence(ctx, rebound):
         n = cfg["N"]
         kind = rng.choice(["mercurius0", "mercurius1", "mercurius1", "trace_kepler", "trace_kepler", "trace_interaction", "trace_none", "trace_full"])
         sub = sorted(rng.sample(range(n), rng.randint(1, n))) if n >= 1 else []
-        if rng.random() < 0.7 and 0 not in sub:
+        if n >= 1 and rng.random() < 0.7 and 0 not in sub:
             sub = [0] + sub
         arr = (ctypes.c_int * n)(*(sub + [0] * (n - len(sub))))
         if kind.startswith("mercurius"):
@@ -352,6 +352,28 @@ def search_detection(ctx, rebound, fails):
         cfg = L.gen_cluster(rng, n=rng.choice([8, 12, 16]) if fast else None, tree=tree, line=line,
                             big=tree and not fast and rng.random() < 0.5, fast=fast)
         sim = L.make_sim(rebound, cfg)
+        if rng.random() < 0.25 and cfg["N"] >= 2:
+            # the same object keeps being used: a first search whose resolver removes particles (with a tree and keep_sorted the
+            # library refuses and raises an error message), then the tree update; detection is judged on what is left
+            sim.collision_resolve_keep_sorted = 1 if rng.random() < 0.4 else 0
+            outs0 = gen_outs(rng, 64)
+            cnt0 = [0]
+            def cb0(sp, c, cnt0=cnt0, outs0=outs0):
+                cnt0[0] += 1
+                return outs0[(cnt0[0] - 1) % 64]
+            L.search(rebound, sim, cb0)
+            if cfg["tree"]:
+                rebound.clibrebound.reb_simulation_update_tree(ctypes.byref(sim))
+            cfg = dict(cfg, N=sim.N)
+            for key_ in ("x", "y", "z", "vx", "vy", "vz", "m", "r"):
+                cfg[key_] = [getattr(sim.particles[i], key_) for i in range(sim.N)]
+            for i in range(sim.N):
+                sim.particles[i].hash = 1000 + i
+            sim.rand_seed = cfg["seed"]
+            try:
+                sim.process_messages()
+            except Exception:
+                pass
         seen = {}
         def cb(sp, c, sim=sim, seen=seen):
             s = sp.contents
@@ -411,8 +433,8 @@ def sums(sim):
 
 def scale_of(cfg):
     sm = sum(abs(m) for m in cfg["m"])
-    sv = max(abs(v) for k in ("vx", "vy", "vz") for v in cfg[k]) or 1.0
-    sx = max(abs(v) for k in ("x", "y", "z") for v in cfg[k]) or 1.0
+    sv = max([abs(v) for k in ("vx", "vy", "vz") for v in cfg[k]] + [0.0]) or 1.0
+    sx = max([abs(v) for k in ("x", "y", "z") for v in cfg[k]] + [0.0]) or 1.0
     return sm, sv, sx
 
 
@@ -455,6 +477,8 @@ def search_merge(ctx, rebound, fails):
         elif S1 is None:
             # 1/(m_i+m_j) with two massless particles is outside the theorem's hypothesis m_i+m_j != 0
             if sum(1 for m in cfg["m"] if m == 0.0) >= 2:
+                fails.append(("merge:massless_pair:nan", dict(kind="merge", cfg=cfg_replay(cfg),
+                              problem="non-finite particle data after a step in which massless particles could merge")))
                 continue
             bad = "non-finite particle data after merging particles with non-zero mass sums"
         elif len(set(live)) != len(live) or not set(live) <= set(range(1000, 1000 + cfg["N"])):
@@ -759,6 +783,33 @@ def check_dcrit_sites(ctx, regen_ok):
                           found_input=False, what="%s does not refresh the MERCURIUS critical radius on every path" % name)
 
 
+def search_massless_regression(ctx, rebound, fails):
+    """two massless (test) particles that overlap while approaching, a massive body and a far-away bystander: the resolvers
+    must leave every particle finite, and the bystander must not be merged away in the following searches"""
+    clib = rebound.clibrebound
+    for resolver in ("merge", "hardsphere"):
+        cfg = dict(N=4, periodic=False, box=16.0, x=[0.0, 5.0, 5.15, -7.0], y=[0.0] * 4, z=[0.0] * 4, vx=[0.0, 0.1, -0.1, 0.0],
+                   vy=[0.0] * 4, vz=[0.0] * 4, m=[1.0, 0.0, 0.0, 0.0], r=[0.01, 0.1, 0.1, 0.1], tree=False, keep=0, mode="direct",
+                   seed=1, t=1.0, dt=0.01)
+        sim = L.make_sim(rebound, cfg)
+        sim.collision_resolve = resolver
+        bad = None
+        for k in range(3):
+            clib.reb_collision_search(ctypes.byref(sim))
+            sim.t += 1.0
+            ctx.evaluations += 1
+            vals = [v for i in range(sim.N) for v in (sim.particles[i].x, sim.particles[i].vx, sim.particles[i].m)]
+            if not all(math.isfinite(v) for v in vals):
+                bad = "search %d: non-finite particle data after resolving the collision of two massless particles: %s" % (
+                    k + 1, [(sim.particles[i].hash.value, sim.particles[i].x, sim.particles[i].vx) for i in range(sim.N)])
+                break
+            if 1003 not in [sim.particles[i].hash.value for i in range(sim.N)]:
+                bad = "search %d: the far-away bystander was merged away" % (k + 1)
+                break
+        if bad:
+            fails.append(("%s:massless_pair:nan" % resolver, dict(kind=resolver, cfg=cfg_replay(cfg), problem=bad)))
+
+
 # ================================================================================================ entry point
 def run(ctx):
     libdir = ctx.lib()
@@ -774,6 +825,7 @@ def run(ctx):
         fails.append((wrong_pair_key(cfg), dict(kind="loop", cfg=cfg_replay(cfg), outcomes=outs,
                       problem="callback received (p1,p2,gb,hash1,hash2,outcome) = %s: an identity pair the search never reported" % (ev,))))
     search_nactive_regression(ctx, rebound, fails)
+    search_massless_regression(ctx, rebound, fails)
     search_linetree_regression(ctx, rebound, fails)
     search_stale_radius_regression(ctx, rebound, fails)
     search_detection(ctx, rebound, fails)
